@@ -3,7 +3,7 @@
 //! parser, dump the node vector, run the Tseitin transformation under catch_unwind and record the
 //! clause list, `num_variables`, and the Display text (header line + clause lines).
 use crate::common::*;
-use crate::k_c01::{make_input, sources, write_models, Input};
+use crate::k_c01::{make_input_class, sources, write_models, Input};
 use crate::rng::Rng;
 use ddnnife_cnf::Cnf;
 use std::fmt::Write as _;
@@ -12,8 +12,12 @@ use std::io::Write;
 pub const KINDS: &[&str] = &["c19"];
 
 /// hand-written members of the input space that must be exercised by every run: the minimal
-/// reproductions of the recorded findings (K5: c2d true node; K10: d4 or node with only false
-/// children) and of the shapes the property names (single-child nodes, shared operations).
+/// reproductions of the repaired findings (K5: c2d true node; K10: d4 or node with only false
+/// children, d4 and node with only `t` children; repair F20: ordinary compared cases), further
+/// shapes with constants (two true nodes under different parents share one variable, a c2d
+/// false node below an and, a true node below a single-child and, constants whose variable is
+/// allocated first / in the middle) and the shapes the property names (single-child nodes,
+/// shared operations).
 fn fixed_inputs() -> Vec<Input> {
     let mk = |id: &str, n: u32, format: &'static str, text: &str, models: Vec<u32>| Input {
         id: format!("c19-fixed-{}", id),
@@ -26,9 +30,78 @@ fn fixed_inputs() -> Vec<Input> {
     vec![
         mk("true-node", 2, "c2d", "nnf 4 3 2/A 0/L 1/L 2/A 3 0 1 2", vec![3]),
         mk("false-children", 2, "d4", "o 1 0/o 2 0/f 3 0/t 4 0/1 2 1 0/1 4 -1 2 0/2 3 2 0", vec![2]),
+        // an and node whose only children are `t` (childless and after loading)
+        mk("true-children", 2, "d4", "o 1 0/a 2 0/t 3 0/1 2 1 0/1 3 -1 2 0/2 3 0/2 3 0", vec![1, 2, 3]),
+        // two true nodes (A 0 twice) under two different and nodes: the cache gives both the same variable
+        mk("two-true-nodes", 3, "c2d", "nnf 11 10 3/A 0/L 1/L 2/A 3 0 1 2/A 0/L -1/L -2/A 3 4 5 6/O 1 2 3 7/L 3/A 2 8 9", vec![4, 7]),
+        // a c2d false node (O 0 0) kept below an and: a dead branch (K7's file)
+        mk("false-node", 2, "c2d", "nnf 7 7 2/L 1/O 0 0/L 2/A 3 0 1 2/L -1/A 2 4 2/O 1 2 3 5", vec![2]),
+        // a true node below a single-child and (the and node takes the constant's variable)
+        mk("true-single-child", 2, "c2d", "nnf 5 4 2/A 0/A 1 0/L 1/L 2/A 3 1 2 3", vec![3]),
+        // true and false below one or node (both without features: smooth), the or below the root and
+        mk("true-false-or", 2, "c2d", "nnf 6 5 2/O 0 0/A 0/O 0 2 0 1/L 1/L -2/A 3 2 3 4", vec![1]),
         mk("single-child", 3, "d4", "o 1 0/t 2 0/1 2 1 0", vec![1, 3, 5, 7]),
         mk("iff", 2, "c2d", "nnf 7 6 2/L 1/L -1/L 2/L -2/A 2 0 2/A 2 1 3/O 1 2 4 5", vec![0, 3]),
     ]
+}
+
+/// A separate class: a d4 file whose root decides a NEW feature y = n + 1; the branch y leads to
+/// an or node all of whose edges (one or two) go to `f`, the branch -y to the old root.  The
+/// loader removes the false children and keeps the or node without children (finding K10 before
+/// the repair F20).  The function is (-y and old), i.e. the same model bit masks over n + 1 features.
+/// The false edges are labelled with a feature x the old function DEPENDS on (so x is mentioned
+/// in the live part too; a feature mentioned only on edges into `f` is outside the d4 input
+/// space: the loader neither keeps nor re-adds it), or are unlabelled when there is none.
+fn dead_or_wrap(inp: &Input, rng: &mut Rng) -> Input {
+    let y = inp.n as i64 + 1;
+    let ms: std::collections::HashSet<u32> = inp.models.as_ref().map(|m| m.iter().copied().collect()).unwrap_or_default();
+    let dependent: Vec<i64> = (1..=inp.n)
+        .filter(|v| ms.iter().any(|m| !ms.contains(&(m ^ (1u32 << (v - 1))))))
+        .map(|v| v as i64)
+        .collect();
+    let two = rng.coin();
+    let mut out = vec!["o 1 0".to_string(), "o 2 0".to_string(), "f 3 0".to_string()];
+    let mut edges = vec![format!("1 2 {} 0", y), format!("1 4 {} 0", -y)];
+    if dependent.is_empty() || rng.chance(1, 4) {
+        edges.push("2 3 0".to_string());
+        if two {
+            edges.push("2 3 0".to_string());
+        }
+    } else {
+        let x = *rng.pick(&dependent);
+        edges.push(format!("2 3 {} 0", x));
+        if two {
+            edges.push(format!("2 3 {} 0", -x));
+        }
+    }
+    let mut first_decl: Option<i64> = None;
+    for l in inp.lines.iter() {
+        let t: Vec<&str> = l.split_whitespace().collect();
+        if t.is_empty() {
+            continue;
+        }
+        if t[0].parse::<i64>().is_ok() {
+            let from: i64 = t[0].parse().unwrap();
+            let to: i64 = t[1].parse().unwrap();
+            edges.push(format!("{} {} {}", from + 3, to + 3, t[2..].join(" ")));
+        } else {
+            let id: i64 = t[1].parse().unwrap();
+            if first_decl.is_none() {
+                first_decl = Some(id);
+            }
+            out.push(format!("{} {} 0", t[0], id + 3));
+        }
+    }
+    assert_eq!(first_decl, Some(1), "d4 generator: the root is node 1");
+    out.extend(edges);
+    Input {
+        id: inp.id.clone(),
+        n: inp.n + 1,
+        format: "d4",
+        lines: out,
+        desc: format!("{} | d4 dead or node ({} false edge{}) below a new root deciding {}", inp.desc, if two { 2 } else { 1 }, if two { "s" } else { "" }, y),
+        models: inp.models.clone(),
+    }
 }
 
 pub fn run(_kind: &str, ctx: &Ctx, out: &mut dyn Write) {
@@ -37,9 +110,15 @@ pub fn run(_kind: &str, ctx: &Ctx, out: &mut dyn Write) {
     let mut k = 0;
     let mut inputs: Vec<Input> = fixed_inputs();
     for src in srcs.iter() {
-        if let Some(i) = make_input(format!("c19-{}", k), src, &mut rng) {
+        // a separate class (one case in six): c2d files that keep their false nodes (`O 0 0`, dead
+        // branches stay in the file and in the loaded vector; since F20 a false node is the
+        // empty disjunction with a variable of its own)
+        let c2d_false = rng.chance(1, 6);
+        if let Some(i) = make_input_class(format!("c19-{}", k), src, &mut rng, c2d_false) {
             if i.n >= 2 {
                 k += 1;
+                // one d4 case in ten gets a dead or node on top (see dead_or_wrap)
+                let i = if i.format == "d4" && i.n < 16 && rng.chance(1, 10) { dead_or_wrap(&i, &mut rng) } else { i };
                 inputs.push(i);
             }
         }
